@@ -353,9 +353,10 @@ Section Dispatcher.
     | None => dispatch reg method params
     end.
 
-  Definition single_dispatch (srvf : form) (srv : server) (dm : option cid)
+  (** the body of _marshaled_single_dispatch once the request-specific configuration is chosen;
+      [f]: the form (version) of that configuration *)
+  Definition single_dispatch_with (f : form) (srv : server) (dm : option cid)
              (m : list (val * val)) (method : str) (params : val) : option val * list event :=
-    let f := request_form srvf m in
     let notif := is_notification m in
     if notif && sv_pool srv
     then (None, [EvEnqueue dm method params (match dm with Some _ => None | None => Some f end)])
@@ -375,6 +376,10 @@ Section Dispatcher.
                | Raise _ => (Some (err_obj f rpcid (-32603) "ConversionError:"), log)   (* repaired (F1) *)
                end
       end.
+
+  Definition single_dispatch (srvf : form) (srv : server) (dm : option cid)
+             (m : list (val * val)) (method : str) (params : val) : option val * list event :=
+    single_dispatch_with (request_form srvf m) srv dm m method params.
 
   (** ** _unmarshaled_dispatch *)
 
